@@ -6,6 +6,7 @@ import build  # noqa
 import gen  # noqa
 import genfold  # noqa  (registers generators)
 import genlimits  # noqa
+import genqueue  # noqa
 
 VERIF = build.VERIF
 REPO = build.REPO
